@@ -177,6 +177,8 @@ public:
   {
     breakPoints_ = breakPoints;
     computeForward_();
+    dVariable_ = "";
+    d2Variable_ = "";
     backLikelihoodUpToDate_ = false;
   }
 
